@@ -1,6 +1,12 @@
 import ChessVerif.Props.C08
+import ChessVerif.Props.C08real
+import ChessVerif.Model.SearchReal
 #print axioms ChessVerif.Props.C08.nodes_le_budget
 #print axioms ChessVerif.Props.C08.time_irrelevant
 #print axioms ChessVerif.Props.C08.soft_eq_hard_strong
 #print axioms ChessVerif.Props.C08.soft_eq_hard
 #print axioms ChessVerif.Props.C08.soft_eq_hard_lines
+#print axioms ChessVerif.Props.C08real.nodes_le_budget_real
+#print axioms ChessVerif.Props.C08real.time_irrelevant_real
+#print axioms ChessVerif.Props.C08real.soft_eq_hard_real
+#print axioms ChessVerif.Props.C08real.soft_eq_hard_lines_real
